@@ -13,10 +13,12 @@
 (***************************************************************************)
 EXTENDS PedersenImpl, TLC
 CONSTANTS LimbBits, NLimb, MM, WSizes
-VARIABLE s
-Init == s = 0
-Next == s < MM - 1 /\ s' = s + 1
-Spec == Init /\ [][Next]_s
+VARIABLES sh, sl
+s == 256 * sh + sl
+Init == sh = 0 /\ sl = 0
+Next == \/ sl < 255 /\ 256 * sh + sl + 1 < MM /\ sl' = sl + 1 /\ sh' = sh
+        \/ 256 * (sh + 1) + sl < MM /\ sh' = sh + 1 /\ sl' = sl
+Spec == Init /\ [][Next]_<<sh, sl>>
 RecodeOK == \A ws \in WSizes :
               LET r == PRecode(s, LimbBits, NLimb, ws) IN
               /\ PRecodeValue(r[1], ws) = s
